@@ -25,6 +25,7 @@ PROPS = {
         suite="govshuttle",
         modules=["CantoVerif.Props.C20"],
         theorems=[
+            "CV.later_failure_unchanged",
             "CV.Govshuttle.stored_faithfully", "CV.Govshuttle.stored_faithfully_wellformed", "CV.Govshuttle.treasury_field_placement",
             "CV.Govshuttle.hex_roundtrip", "CV.Govshuttle.hex2Bytes_wellFormed", "CV.Govshuttle.hex2Bytes_append",
             "CV.Govshuttle.hex2Bytes_stops_even", "CV.Govshuttle.hex2Bytes_stops_odd", "CV.Govshuttle.hex2Bytes_odd",
